@@ -244,6 +244,9 @@ class SegmentTensor(PolytopeTensor):
         result = self._line.contains(other)
 
         m = self.normalized_array
+        if m.dtype.kind in "iu":
+            # the products below grow like the 8th power of the coordinates and would overflow int64
+            m = m.astype(np.float64)
         arr = matmul(m, m, transpose_b=True)
 
         b = arr[..., 0]
